@@ -45,8 +45,107 @@ func posArgOf(c prog.Call) ast.Expr {
 	return nil
 }
 
+// updSite is a call that publishes a position to the tree and/or the hints:
+// HTree.set / hintMgr.set themselves, or a helper that forwards one of its
+// parameters to them (transitively).
+type updSite struct {
+	call prog.Call
+	arg  ast.Expr
+	tree bool
+	hint bool
+}
+
+type fwdInfo struct {
+	param      int
+	tree, hint bool
+}
+
+// forwarders computes, for every function of package store, which parameter it
+// passes on (unchanged) as the position argument of an index update.
+func forwarders(c *Ctx) map[string][]fwdInfo {
+	if c.fwd != nil {
+		return c.fwd
+	}
+	c.fwd = map[string][]fwdInfo{}
+	for iter := 0; iter < 4; iter++ {
+		changed := false
+		for _, f := range c.P.SortedFuncs() {
+			if f.Pkg.Name != "store" {
+				continue
+			}
+			for _, call := range f.Calls() {
+				var cands []fwdInfo // (arg index in this call, kinds)
+				switch call.Key {
+				case kHTreeSet:
+					cands = []fwdInfo{{2, true, false}}
+				case kHintSet:
+					cands = []fwdInfo{{2, false, true}}
+				default:
+					cands = c.fwd[call.Key]
+				}
+				for _, cd := range cands {
+					if cd.param >= len(call.Expr.Args) {
+						continue
+					}
+					srcs := f.SourcesAt(call.Expr.Args[cd.param], call.Expr)
+					if len(srcs) != 1 || srcs[0].Kind != "param" || srcs[0].Field != "" {
+						continue
+					}
+					for i := 0; ; i++ {
+						pv := f.Param(i)
+						if pv == nil {
+							break
+						}
+						if pv == srcs[0].Obj {
+							found := false
+							for k, e := range c.fwd[f.Key] {
+								if e.param == i {
+									found = true
+									if (cd.tree && !e.tree) || (cd.hint && !e.hint) {
+										c.fwd[f.Key][k].tree = e.tree || cd.tree
+										c.fwd[f.Key][k].hint = e.hint || cd.hint
+										changed = true
+									}
+								}
+							}
+							if !found {
+								c.fwd[f.Key] = append(c.fwd[f.Key], fwdInfo{i, cd.tree, cd.hint})
+								changed = true
+							}
+						}
+					}
+				}
+			}
+		}
+		if !changed {
+			break
+		}
+	}
+	return c.fwd
+}
+
+func updateSites(c *Ctx, f *prog.Func) []updSite {
+	fw := forwarders(c)
+	var out []updSite
+	for _, call := range f.Calls() {
+		switch call.Key {
+		case kHTreeSet:
+			out = append(out, updSite{call, call.Expr.Args[2], true, false})
+		case kHintSet:
+			out = append(out, updSite{call, call.Expr.Args[2], false, true})
+		default:
+			for _, e := range fw[call.Key] {
+				if e.param < len(call.Expr.Args) {
+					out = append(out, updSite{call, call.Expr.Args[e.param], e.tree, e.hint})
+				}
+			}
+		}
+	}
+	return out
+}
+
 func c01r1(c *Ctx) {
-	c.Floor("C01.R1", 2)
+	c.Floor("C01.R1", 3)
 	for _, f := range c.P.SortedFuncs() {
 		apps := f.CallsTo(kAppendRecord)
 		if len(apps) == 0 {
@@ -54,40 +153,66 @@ func c01r1(c *Ctx) {
 		}
 		c.Funcs[f.Key] = true
 		info := f.Info()
-		for _, u := range f.CallsTo(kHTreeSet, kHintSet) {
-			key := f.Key + ": " + short(u.Key) + "(pos) after AppendRecord"
-			arg := posArgOf(u)
-			if arg == nil {
-				c.undec("C01.R1", key, "index update without a position argument")
-				continue
+		sites := updateSites(c, f)
+		for _, u := range sites {
+			what := "tree"
+			if u.hint && u.tree {
+				what = "tree+hint"
+			} else if u.hint {
+				what = "hint"
 			}
-			ok, calls := f.OnlyFromCall(arg, kAppendRecord, 0)
+			key := f.Key + ": " + what + " update (" + short(u.call.Key) + ") after AppendRecord"
+			ok, calls := f.OnlyFromCall(u.arg, kAppendRecord, 0)
 			if !ok {
-				c.viol("C01.R1", key, u.Pos(), "position passed to "+u.Key+" does not (only) flow from the result of AppendRecord in the same function: the index would point at a record other than the one just appended")
+				c.viol("C01.R1", key, u.call.Pos(), "position passed to "+u.call.Key+" does not (only) flow from the result of AppendRecord in the same function: the index would point at a record other than the one just appended")
 				continue
 			}
 			good := true
 			for _, a := range calls {
-				cfg := f.CFGFor(u.Expr)
+				cfg := f.CFGFor(u.call.Expr)
 				c.Paths++
-				if !cfg.Dominates(a, u.Expr) {
+				if !cfg.Dominates(a, u.call.Expr) {
 					good = false
-					c.viol("C01.R1", key, u.Pos(), "index update is reachable without passing the AppendRecord call at "+c.pos(a))
+					c.viol("C01.R1", key, u.call.Pos(), "index update is reachable without passing the AppendRecord call at "+c.pos(a))
 					continue
 				}
 				errObj := f.ResultObj(a, 1)
 				if errObj == nil {
 					good = false
-					c.viol("C01.R1", key, u.Pos(), "error result of AppendRecord at "+c.pos(a)+" is discarded, so the index update is not confined to the err==nil edge")
+					c.viol("C01.R1", key, u.call.Pos(), "error result of AppendRecord at "+c.pos(a)+" is discarded, so the index update is not confined to the err==nil edge")
 					continue
 				}
-				if !prog.HasNilFact(info, f.GuardsAt(u.Expr), prog.IsObj(info, errObj), true) {
+				if !prog.HasNilFact(info, f.GuardsAt(u.call.Expr), prog.IsObj(info, errObj), true) {
 					good = false
-					c.viol("C01.R1", key, u.Pos(), "index update is not guarded by err == nil of the AppendRecord at "+c.pos(a)+": a failed append would still be published")
+					c.viol("C01.R1", key, u.call.Pos(), "index update is not guarded by err == nil of the AppendRecord at "+c.pos(a)+": a failed append would still be published")
 				}
 			}
 			if good {
-				c.ok("C01.R1", key, u.Pos(), "pos <= res0(AppendRecord), dominated, on err==nil edge")
+				c.ok("C01.R1", key, u.call.Pos(), "pos <= res0(AppendRecord), dominated, on err==nil edge")
+			}
+		}
+		// every successful append is published to the tree and to the hints
+		for _, a := range apps {
+			errObj := f.ResultObj(a.Expr, 1)
+			stop := func(n ast.Node) bool {
+				if rs, ok := n.(*ast.ReturnStmt); ok && errObj != nil {
+					return prog.HasNilFact(info, f.GuardsAt(rs), prog.IsObj(info, errObj), false)
+				}
+				return false
+			}
+			for _, kind := range []string{"tree", "hint"} {
+				pass := func(n ast.Node) bool {
+					for _, u := range sites {
+						if ((kind == "tree" && u.tree) || (kind == "hint" && u.hint)) && prog.NodeIs(u.call.Expr)(n) {
+							return true
+						}
+					}
+					return false
+				}
+				c.Paths++
+				esc := f.CFGFor(a.Expr).EscapesWithout(a.Expr, pass, stop)
+				c.check(!esc.Found, "C01.R1", f.Key+": AppendRecord ⇒ "+kind+" update", a.Pos(), "every non-error path publishes the appended position to the "+kind,
+					"a record is appended but a non-error path returns without publishing its position to the "+kind+": the acknowledged write is not readable (tree) or is lost at the next index rebuild (hint)", c.trail(esc.Trail)...)
 			}
 		}
 	}
